@@ -901,13 +901,16 @@ def sk_nontrivial(D, cols):
     return False
 
 
-def sk_program(D, pattern, cols, patterns_per_level=None, qq_levels=(), kstyle="param", pure_set=False):
+def sk_program(D, pattern, cols, patterns_per_level=None, qq_levels=(), kstyle="param", pure_set=False, helper=False):
     """the probe program of a skeleton: every read is logged with display; at the levels in
     qq_levels the read goes through a quasiquote template, (display `(,x)).  kstyle: the
     location holding the next-level closure is a parameter of its creator ("param", passed
     #f) or an internal definition ("idef": procedures without bound names are thunks).
     pure_set: a set! action is a bare assignment (set! x 'wL) with no read in the same
-    procedure (the variable is then mentioned by that procedure only as an assignment target)"""
+    procedure (the variable is then mentioned by that procedure only as an assignment target).
+    helper: every procedure starts with an internal definition in the (define (h p ...) ...) form whose parameters
+    carry the SAME NAMES as the skeleton's variables (they bind inside h only: what the enclosing body reads after
+    the definition is still the enclosing binding)"""
     pats = patterns_per_level or [pattern] * D
 
     def args_for(l):
@@ -943,6 +946,8 @@ def sk_program(D, pattern, cols, patterns_per_level=None, qq_levels=(), kstyle="
         else:
             ftxt = "(%s%s)" % (" ".join(formals), (" . " + rest[0]) if rest else "")
         body = []
+        if helper:
+            body.append("(define (h%d %s) (list %s))" % (l + 1, " ".join(NAMES3), " ".join(NAMES3)))
         if kstyle == "idef" and l < D - 1:
             body.append("(define %s #f)" % k)
         for n in range(3):
@@ -1177,7 +1182,7 @@ class G05(object):
 
     def fragment(self, tag):
         """one scenario: a list of form texts using globals suffixed by tag"""
-        r = self.rng.randrange(20)
+        r = self.rng.randrange(23)
         k, n, acc = "k" + tag, "n" + tag, "r" + tag
         times = self.rng.randint(0, 3)
         self.dist.hit("scenario:%d" % r)
@@ -1269,6 +1274,22 @@ class G05(object):
                     "(host%s %s)" % (tag, self.ival()),
                     "(define (other%s z) (let ((w (* z 2))) (let ((peek (lambda () w))) (if (< %s %d) (begin (set! %s (+ %s 1)) (%s (peek))) (peek)))))" % (tag, n, times, n, n, k),
                     "(other%s %s)" % (tag, self.ival()), "(other%s 7)" % tag]
+        if r in (20, 21, 22):
+            # call/cc directly in the body of a procedure with 0..1 parameters and internal definitions, applied as the
+            # whole top-level form; allocation-heavy forms in between make real collections happen before the
+            # continuation is re-entered (what it needs must have been kept alive by the collector)
+            formals = "" if r != 22 else " p"
+            arg = "" if r != 22 else " 3"
+            self.dist.hit("thunk-capture-then-churn")
+            return ["(define %s #f) (define %s 0)" % (k, n),
+                    "(define (churn%s i) (if (= i 0) 'ok (begin (list i i i i) (churn%s (- i 1)))))" % (tag, tag),
+                    "(define (gen%s%s) (define loc 5) (define v (call/cc (lambda (c) (set! %s c) 1))) (set! loc (+ loc v)) (list loc v))"
+                    % (tag, formals, k),
+                    "(gen%s%s)" % (tag, arg),
+                    "(churn%s %d)" % (tag, self.pick([100, 500, 1200])), "(churn%s %d)" % (tag, self.pick([50, 700])),
+                    "(if (< %s 2) (begin (set! %s (+ %s 1)) (%s (* 10 %s))) 'done)" % (n, n, n, k, n),
+                    "(churn%s 400)" % tag,
+                    "(if (< %s 3) (begin (set! %s (+ %s 1)) (%s (* 10 %s))) 'done)" % (n, n, n, k, n)]
         if r in (18, 19):  # captured deep inside a non-tail recursion (the VM stack has grown beyond its initial
             # 256 slots from depth 42), re-entered from later top-level forms after that evaluation has ended,
             # with a failed or an ordinary evaluation in between
